@@ -1,5 +1,8 @@
-\* Render quick: 2 slots, 3 modulators (probe with source / tweener / LFO saw, amplitude or frequency linked),
-\* 2 linked parameters (mixer and clock), buffer 2, callbacks of 1 or 3 frames, <= 3 callbacks, <= 5 gameplay calls
+\* Render quick (the same constants as checks/c17.py, tier quick; ~260 000 distinct states, ~20 s with 4 workers):
+\* 2 slots, 3 modulators (probe that may read an earlier modulator / tweener / saw LFO at 1 Hz whose amplitude may be
+\* linked), 2 linked parameters (owner mixer or clock), mappings (0,1)->(0,2) linear and (0,1)->(2,0) InPowi(2),
+\* sets (2 over 4 frames linear | 0 at once), internal buffer 2, callbacks of 3 frames (chunks 2 + 1), <= 3 callbacks,
+\* <= 4 gameplay calls (<= 3 between two callbacks)
 SPECIFICATION Spec
 CONSTANTS
   S = 4096
@@ -7,9 +10,9 @@ CONSTANTS
   Params = {1, 2}
   NS = 2
   B = 2
-  Fs = {1, 3}
+  Fs = {3}
   MaxCb = 3
-  MaxOps = 5
+  MaxOps = 4
   Gap = 3
   Kinds = {"probe", "tw", "lfo"}
   ProbeSrc = TRUE
